@@ -128,8 +128,8 @@ class CtxTranslator(mdibmodel.Translator):
         def dl(lst):
             lst = sorted(lst, key=lambda e: e[0])
             return '[' + '; '.join(f'({h}, [{"; ".join(str(v) for v in enc)}])' for h, enc in lst) + ']'
-        explit = '[' + '; '.join(f'({c}, {v}, {dl(a)})' for c, v, a in exp) + ']'
-        return name, ulit, '[' + '; '.join(ops) + ']', explit
+        explit = '([' + '; '.join(f'({c}, {v}, {dl(a)})' for c, v, a in exp) + '] : list ctxobs)'
+        return name, ulit, '([' + '; '.join(ops) + '] : list cop)', explit
 
 
 def run(ctx):
